@@ -731,8 +731,8 @@ pub const SUBS: &[Sub] = &[
 pub fn run(ctx: &Ctx) {
     run_regress(ctx, SUBS);
     drive_enum(ctx, &SUBS[0], crate::sweep::cases().len() as u64);
-    drive_random(ctx, &SUBS[1], ctx.n(30_000, 1_500_000), 2000);
-    drive_random(ctx, &SUBS[2], ctx.n(20_000, 1_000_000), 1500);
+    drive_random(ctx, &SUBS[1], ctx.n(30_000, 15_000_000), 2000);
+    drive_random(ctx, &SUBS[2], ctx.n(20_000, 10_000_000), 1500);
 }
 
 pub fn finish(ctx: &Ctx) -> i32 {
